@@ -3,7 +3,9 @@
    grid    (mn, mx, h): number and position of the points of Spline::GenerateGrid and
            Table::GenerateGridSpacing, last point pinned to mx
    smooth  (Y, n): Table::Smooth(n) as the exact operator SmoothN (scaled by 4^n), followed by
-           Table::Save / Table::Load which must return the same table (x, y, flags)            *)
+           Table::Save / Table::Load which must return the same table (x, y, flags); with e = TRUE the
+           table carries an error column (file lines "x y yerr flag"), which Smooth leaves alone and
+           Save/Load must return as well - in particular the FLAGS of a 4-column table               *)
 EXTENDS SplineLattice, TLC, Json
 
 CONSTANTS MinSet, SpanSet, StepSet,            \* grid family
@@ -16,8 +18,8 @@ Init == /\ ph = 0
         /\ \/ \E mn \in MinSet, sp \in SpanSet, h \in StepSet :
                 /\ sp = 0 \/ sp >= h
                 /\ c = [fam |-> "grid", mn |-> mn, mx |-> mn + sp, h |-> h]
-           \/ \E l \in LenSet : \E y \in [1..l -> YsOf(l)], n \in PassSet :
-                c = [fam |-> "smooth", Y |-> y, n |-> n]
+           \/ \E l \in LenSet : \E y \in [1..l -> YsOf(l)], n \in PassSet, e \in BOOLEAN :
+                c = [fam |-> "smooth", Y |-> y, n |-> n, e |-> e]
 Next == ph = 0 /\ ph' = 1 /\ UNCHANGED c
 Spec == Init /\ [][Next]_vars
 
@@ -33,5 +35,7 @@ Vector == (Emit /\ ph = 1) =>
     THEN [fam |-> "grid", mn |-> c.mn, mx |-> c.mx, h |-> c.h, n |-> GridCount(c.mn, c.mx, c.h),
           sg |-> SplineGrid(c.mn, c.mx, c.h), tg |-> TableGrid(c.mn, c.mx, c.h)]
     ELSE [fam |-> "smooth", y |-> c.Y, n |-> c.n, p |-> Pow4(c.n), s |-> SmoothN(c.Y, c.n),
-          f |-> [i \in 1..Len(c.Y) |-> FlagOf(i + c.Y[1])]]))
+          f |-> [i \in 1..Len(c.Y) |-> FlagOf(i + c.Y[1])],
+          \* error column in quarters (only when e): 1/4, 2/4, 0, 1/4, ...
+          e |-> IF c.e THEN [i \in 1..Len(c.Y) |-> (i + c.n) % 3] ELSE <<>>]))
 =============================================================================
